@@ -251,31 +251,38 @@ func (p *{{parser}}) _recover() bool {
 	}
 }
 
-// _canShiftError simulates the parser with ERROR as the lookahead on a copy of
-// the state stack: it follows reductions until ERROR is shifted, and reports
-// whether the state reached by that shift accepts the current lookahead.
+// _canShiftError simulates the parser on a copy of the state stack: first with
+// ERROR as the lookahead until ERROR is shifted, then with the current
+// lookahead until that is shifted (or accepted) too. Merely finding an action
+// for the lookahead in the state after ERROR is not enough: with LALR(1) it can
+// be a reduction after which the lookahead is an error again, and recovery
+// would inject ERROR at the same place forever.
 func (p *{{parser}}) _canShiftError() bool {
 	states := make([]int32, len(p._stack))
 	for i, item := range p._stack {
 		states[i] = item.State
 	}
 
-	for {
-		action, ok := _Find(_actions, states[len(states)-1], int32(ERROR))
-		if !ok {
-			return false
-		}
+	for _, la := range [2]int32{int32(ERROR), int32(p._la)} {
+		for {
+			action, ok := _Find(_actions, states[len(states)-1], la)
+			if !ok {
+				return false
+			}
 
-		if action >= 0 {
-			_, ok = _Find(_actions, action, int32(p._la))
-			return ok
-		}
+			if action >= 0 { // shift (or accept)
+				states = append(states, action)
+				break
+			}
 
-		prod := -action
-		states = states[:len(states)-int(_termCounts[int(prod)])]
-		state, _ := _Find(_goto, states[len(states)-1], _rules[int(prod)])
-		states = append(states, state)
+			prod := -action
+			states = states[:len(states)-int(_termCounts[int(prod)])]
+			state, _ := _Find(_goto, states[len(states)-1], _rules[int(prod)])
+			states = append(states, state)
+		}
 	}
+
+	return true
 }
 
 func (p *{{parser}}) _makeError() Error {
